@@ -35,7 +35,7 @@ class TextFileStore(FileStore):
 
     def read(self) -> str:
         """Read the string value from the file."""
-        with open(self.path, encoding=self.encoding) as inputfile:
+        with open(self.path, encoding=self.encoding, newline="") as inputfile:
             return inputfile.read()
 
     def write(self, value: str) -> None:
@@ -44,7 +44,9 @@ class TextFileStore(FileStore):
 
         :param value: The value.
         """
-        with staged_write(self.path, encoding=self.encoding) as outputfile:
+        with staged_write(
+            self.path, encoding=self.encoding, newline=""
+        ) as outputfile:
             outputfile.write(value)
 
     def __repr__(self):
